@@ -6,7 +6,7 @@
     implementation and independent readers (checks/c14.py), not by these theorems. *)
 From Coq Require Import List ZArith Bool.
 From Coq Require Import Init.Byte.
-From JaqV Require Import Base.Bytes Base.F64 Val.Num Val.Val Json.Write Json.Read Fmts.Yaml Fmts.Tabular Proofs.YamlLaws Proofs.TabularLaws Fmts.Cbor Proofs.CborLaws.
+From JaqV Require Import Base.Bytes Base.F64 Val.Num Val.Val Json.Write Json.Read Fmts.Yaml Fmts.Tabular Proofs.YamlLaws Proofs.TabularLaws Fmts.Cbor Proofs.CborFloat Proofs.CborLaws.
 Import ListNotations.
 Local Open Scope Z_scope.
 
@@ -87,9 +87,9 @@ Proof. exact YamlLaws.yaml_integer_roundtrip. Qed.
 Print Assumptions yaml_integer_roundtrip.
 
 (** CBOR: reading what the writer wrote yields the value, whatever follows it in the input - for every value built from
-    null, booleans, machine integers, big integers of any size, byte strings, valid UTF-8 text strings, arrays and objects
-    with any such values as keys ([cb]; sizes below 2^64 as every length in a 64-bit process is); floats, decimal literals
-    and invalid UTF-8 (documented exceptions) stay with the correspondence *)
+    null, booleans, machine integers, big integers of any size, floats (every binary64 pattern, in the shortest width that
+    holds it), byte strings, valid UTF-8 text strings, arrays and objects with any such values as keys ([cb]; sizes below
+    2^64 as every length in a 64-bit process is); invalid UTF-8 (a documented exception) stays with the correspondence *)
 Theorem cbor_value_roundtrip : forall v rest, CborLaws.cb v -> parse_one (encode v ++ rest) = DOk v rest.
 Proof. exact CborLaws.cbor_roundtrip. Qed.
 Print Assumptions cbor_value_roundtrip.
@@ -109,3 +109,16 @@ Print Assumptions cbor_header_roundtrip.
 Theorem cbor_magnitude_roundtrip : forall z, 0 <= z -> be_val (to_bytes_be z) = z.
 Proof. exact CborLaws.to_bytes_be_val. Qed.
 Print Assumptions cbor_magnitude_roundtrip.
+
+(** floats: the shortest of binary16 / binary32 that holds a number exactly is read back as the same binary64 pattern *)
+Theorem cbor_short_floats_are_exact : forall b h, 0 <= b < two64 ->
+  (short_float 15 10 b = Some h -> 0 <= h < 65536 /\ long_float 15 10 h = Some b) /\
+  (short_float 127 23 b = Some h -> 0 <= h < 4294967296 /\ long_float 127 23 h = Some b).
+Proof. exact CborFloat.short_floats_exact. Qed.
+Print Assumptions cbor_short_floats_are_exact.
+
+(** decimal literals: read back as the float they denote (the spelling is the documented exception) *)
+Theorem cbor_decimal_literal : forall s rest, 0 <= dec_to_f64 s < two64 ->
+  parse_one (encode (Num (Dec s)) ++ rest) = DOk (Num (Flt (dec_to_f64 s))) rest.
+Proof. exact CborLaws.cbor_decimal. Qed.
+Print Assumptions cbor_decimal_literal.
